@@ -6,6 +6,7 @@
    by the reference parser; it is outside the statement (DESIGN section 7). *)
 From Coq Require Import ZArith.
 From SV Require Import Base.Bytes Spec.Civil Spec.Rfc6265 Model.Time Model.Headers Model.Cookie Proofs.CookieP.
+From SV Require Import Base.SrcAst Generated.SourceParams Tie.CookieTie.
 Open Scope N_scope.
 
 (* C15.1  For EVERY list of Cookie fields generated from the cookie-string grammar -- any number
@@ -116,6 +117,16 @@ Example c15_nonvacuous :
   p_domain (expected_parse c) = Some [101;120;97;109;112;108;101;46;99;111;109].
 Proof. vm_compute. repeat split; reflexivity. Qed.
 
+(* C15.src  `impl Display for Cookie` as TRANSLATED statement by statement from src/cookie.rs ON THIS RUN
+   (props/srcparams.py -> Generated/SourceParams.v: src_cookie_display), interpreted by Tie/CookieTie.v
+   (guards, arguments, literals in source order), is the model's display_cookie for EVERY cookie: the Set-Cookie
+   theorems above are about the formatting code as it is now *)
+Theorem c15_display_is_the_source :
+  forall c, eval_segs src_cookie_display c = display_cookie c.
+Proof. exact cookie_display_tie. Qed.
+Theorem c15_translation_complete : src_problems_cookie = 0%nat.
+Proof. exact cookie_translated. Qed.
+
 Print Assumptions c15_cookie_header_roundtrip.
 Print Assumptions c15_cookie_header_roundtrip_from_headers.
 Print Assumptions c15_rfc_cookie_string_is_an_instance.
@@ -128,3 +139,5 @@ Print Assumptions c15_oracle_request_means_last_wins.
 Print Assumptions c15_oracle_set_cookie_sound.
 Print Assumptions c15_oracle_parsed_eqb_is_equality.
 Print Assumptions c15_subsecond_max_age_prints_zero.
+Print Assumptions c15_display_is_the_source.
+Print Assumptions c15_translation_complete.
